@@ -235,6 +235,7 @@ pub fn constant_failures(body: &[Stmt]) -> Vec<&'static str> {
                 scan(b, decls);
             }
             Stmt::Return(Some(v)) => scan(v, decls),
+            Stmt::Import(_, b) => b.iter().for_each(|s| scan(s, decls)),
             _ => {}
         }
     }
@@ -334,3 +335,44 @@ pub fn constant_failures(body: &[Stmt]) -> Vec<&'static str> {
     }
     kinds
 }
+
+/// the files a program imports: (name, text)
+pub fn import_files(p: &Program) -> Vec<(String, String)> {
+    let mut found = vec![];
+    super::ast::collect_imports(&p.body, &mut found);
+    found
+        .into_iter()
+        .map(|(name, body)| (name, Printer::new(Hide::None).stmts(&body)))
+        .collect()
+}
+
+/// writes the files a case imports into a scratch directory of the calling thread and returns
+/// the program text with the directory filled in
+pub fn materialise(text: &str, case: &serde_json::Value) -> String {
+    let Some(files) = case["files"].as_object() else {
+        return text.to_string();
+    };
+    if files.is_empty() {
+        return text.to_string();
+    }
+    let dir = std::env::temp_dir().join(format!("vcheck-imports-{}-{:?}", std::process::id(), std::thread::current().id()).replace(['(', ')'], ""));
+    let _ = std::fs::create_dir_all(&dir);
+    for (name, body) in files {
+        // files may import further files of the same case
+        let body = body.as_str().unwrap_or("").replace("@DIR@", &dir.to_string_lossy());
+        let _ = std::fs::write(dir.join(name), body);
+    }
+    text.replace("@DIR@", &dir.to_string_lossy())
+}
+
+pub fn cleanup_import_dirs() {
+    if let Ok(rd) = std::fs::read_dir(std::env::temp_dir()) {
+        let prefix = format!("vcheck-imports-{}-", std::process::id());
+        for e in rd.flatten() {
+            if e.file_name().to_string_lossy().starts_with(&prefix) {
+                let _ = std::fs::remove_dir_all(e.path());
+            }
+        }
+    }
+}
+
